@@ -896,12 +896,27 @@ func ruleNHead(c *engine.Context) *report.Rule {
 		if fn == nil || fn.Blocks == nil {
 			continue
 		}
+		// "inspects": looks into one of the values it was given (type test, lookup, indexing, range)
+		given := map[ssa.Value]bool{}
+		for _, prm := range fn.Params[1:] {
+			if it, isI := prm.Type().Underlying().(*types.Interface); isI && it.NumMethods() == 0 {
+				for v := range cfgutil.Derived(prm) {
+					given[v] = true
+				}
+			}
+		}
 		inspects := false
 		for _, b := range fn.Blocks {
 			for _, ins := range b.Instrs {
-				switch ins.(type) {
-				case *ssa.TypeAssert, *ssa.Lookup, *ssa.IndexAddr, *ssa.Range:
-					inspects = true
+				switch x := ins.(type) {
+				case *ssa.TypeAssert:
+					inspects = inspects || given[x.X]
+				case *ssa.Lookup:
+					inspects = inspects || given[x.X]
+				case *ssa.IndexAddr:
+					inspects = inspects || given[x.X]
+				case *ssa.Range:
+					inspects = inspects || given[x.X]
 				}
 			}
 		}
